@@ -433,6 +433,14 @@ fn c08_complete() {
             check_bool("complete:early_completion_keeps_other_version", fx.f.on_going_fetches.contains_key(&(key(0), ty[2].clone())));
         }
     }
+    // the other version of the completed key that a neighbour advertised is a different record version: it is still
+    // wanted (queued, or started right away) -- dropping it would leave the two holders diverged for good, because a
+    // key that is held is never queued again
+    if which == 0 {
+        let t2_queued = fx.f.to_be_fetched.keys().any(|(k, t, _)| *k == key(0) && *t == ty[2]);
+        let t2_in_flight = fx.f.on_going_fetches.contains_key(&(key(0), ty[2].clone()));
+        check_bool("complete:other_version_of_the_completed_key_is_still_wanted", t2_queued || t2_in_flight);
+    }
     // whatever gets scheduled next is new in flight, and the limit is respected by batch scheduling
     for (_h, k) in &out {
         check_bool("complete:returned_key_is_in_flight", og_after.iter().any(|(kk, _)| kk == k));
